@@ -2,6 +2,7 @@ package main
 
 import (
 	"fmt"
+	"os"
 	"go/constant"
 	"go/token"
 	"go/types"
@@ -586,7 +587,39 @@ func (u *Unit) exec(p *Path, in ssa.Instruction) {
 		}
 		if obj := x.Object(); obj != nil {
 			if _, isVar := obj.(*types.Var); isVar {
-				p.names[obj.Name()] = x.X
+				if os.Getenv("JVC_DBGREF") == obj.Name() {
+					fmt.Printf("DebugRef %s := %v (%T) addr=%v in block %d of %s\n", obj.Name(), x.X, x.X, x.IsAddr, x.Block().Index, x.Parent().Name())
+				}
+				val := x.X
+				// go/ssa places the DebugRef of a defining occurrence `x := e` before the (lifted) store,
+				// so it carries the zero value; the value of e is in the DebugRef just before it.
+				if c, isConst := x.X.(*ssa.Const); isConst && !x.IsAddr && x.Expr.Pos() == obj.Pos() && (c.Value == nil || c.IsNil()) {
+					blk := x.Block()
+					for i, in := range blk.Instrs {
+						if in != ssa.Instruction(x) {
+							continue
+						}
+						// the initialiser is evaluated right after; its value is named by the next
+						// expression DebugRef of the same type (names are resolved lazily)
+						for j := i + 1; j < len(blk.Instrs); j++ {
+							pd, ok := blk.Instrs[j].(*ssa.DebugRef)
+							if !ok {
+								continue
+							}
+							if pd.Object() != nil {
+								if pd.Object() != obj {
+									continue
+								}
+								break
+							}
+							if pd.Expr.Pos() > x.Expr.Pos() && types.Identical(pd.X.Type(), x.X.Type()) {
+								val = pd.X
+								break
+							}
+						}
+					}
+				}
+				p.names[obj.Name()] = val
 				if x.IsAddr {
 					p.nameAddr[obj.Name()] = true
 				} else {
@@ -884,6 +917,7 @@ func (u *Unit) mapValueAt(p *Path, m *Term, mt *types.Map) (*Term, *Comp) {
 	if !m.IsLit() || m.Lit == "0" {
 		p.assume(Imp(Eq(m, IntLit(0)), Eq(mv, enc.EmptyMap(c.Elem))))
 	}
+	p.assume(App("finite_"+c.Elem, SBool, mv))
 	return mv, c
 }
 
